@@ -15,6 +15,8 @@
 (*   Refused(c, e, k)  SelectAdapterProxy + AdapterProxy.Send on an endpoint that does not listen:    *)
 (*                     the request cannot be sent (dial refused), the call fails at once              *)
 (*   SetUp(e, b)       environment: the server of endpoint e stops listening / listens again          *)
+(*   Refresh(x)        the refresher asks the registry again (refreshEndpoints + updateActiveEp); x is the    *)
+(*                     registry's answer: an active list x.a and an inactive list x.i                         *)
 (*                                                                                                 *)
 (* Time.  The code compares `now - t >= threshold` only, so the record keeps AGES (now - t), each  *)
 (* saturating at the one threshold it is compared with (absolute timestamps and 1-second steps     *)
@@ -27,7 +29,15 @@
 (***************************************************************************************************)
 EXTENDS Integers, Sequences, FiniteSets, TLC
 
-CONSTANTS N,        \* number of endpoints returned by the registry; endpoint i is the i-th in registry (host) order
+CONSTANTS N,        \* number of endpoints the registry may ever name; endpoint i is the i-th in registry (host) order
+          Reg0,     \* the endpoints the registry names when the servant is created (a non-empty subset of 1..N)
+          Answers,  \* what the registry may answer when it is asked again: records [a |-> active list, i |-> inactive list,
+                    \* v |-> an attribute of the listed endpoints (weight, grid, ...) differs from the installed list's]
+                    \* (sets: the code sorts the active list by host); {} = the registry is never asked again
+          Stale,    \* FALSE: answers that withdraw an endpoint from the active list while an admission for its probe is queued are
+                    \* left out (C15 does not speak about endpoints the registry has withdrawn); TRUE: they are followed AS CODED --
+                    \* the admission stays queued, the next caller probes the withdrawn endpoint, and a good probe puts it (back)
+                    \* into rotation although the registry does not name it and no status check will ever visit it
           Calls,    \* call slots (concurrent callers)
           Kinds,    \* routing kinds of a call: "rr" (round robin), "mod", "ch" (hash routed); no effect on the state
           Steps,    \* time increments in seconds
@@ -59,11 +69,15 @@ VARIABLES h,        \* [Eps -> health record]
           listed,   \* checkAdapterList: endpoints currently in probeQ
           infl,     \* [Calls -> in-flight call or NoCall]
           g,        \* ghosts, [Eps -> [since, run, runAge, admitAge]]
-          up        \* environment, [Eps -> BOOLEAN]: the endpoint's server is listening (a connection can be made)
-vars == <<h, created, active, probeQ, listed, infl, g, up>>
+          up,       \* environment, [Eps -> BOOLEAN]: the endpoint's server is listening (a connection can be made)
+          reg,      \* activeEpf: the active list of the registry's last answer that was installed (what checkStatus visits,
+                    \* what the random fallback draws from)
+          staleQ    \* (only with Stale) endpoints in `listed` whose queued adapter was thrown out of the cache by a refresh: the object
+                    \* in the queue is no longer the endpoint's adapter, its counters are nobody's health record
+vars == <<h, created, active, probeQ, listed, infl, g, up, reg, staleQ>>
 
 Min(a, b) == IF a < b THEN a ELSE b
-NoCall == [ep |-> 0, probe |-> FALSE]
+NoCall == [ep |-> 0, probe |-> FALSE, orph |-> FALSE]       \* orph: the call runs on an adapter that is no longer in the cache
 
 H0 == [status |-> TRUE, fail |-> 0, lastFail |-> 0, send |-> 0,
        aSucc |-> FailInterval, aBlock |-> TryInterval, aCheck |-> CheckTime,
@@ -76,31 +90,35 @@ G0 == [since |-> 0, run |-> 0, runAge |-> 0, admitAge |-> TryInterval]
 
 Init == /\ h = [e \in Eps |-> H0]
         /\ created = {}
-        /\ active = Eps
+        /\ active = Reg0
         /\ probeQ = <<>>
         /\ listed = {}
         /\ infl = [c \in Calls |-> NoCall]
         /\ g = [e \in Eps |-> G0]
         /\ up = [e \in Eps |-> TRUE]
+        /\ reg = Reg0
+        /\ staleQ = {}
 
 ----
 (* SelectAdapterProxy: a queued probe candidate first, then the strategy over the endpoints in     *)
 (* rotation (any of them: cursors and hash codes are not modelled here, see Selector / HashRing),  *)
-(* and any registry endpoint when nothing is in rotation.                                          *)
+(* and any endpoint of the registry's list when nothing is in rotation.                            *)
 IsProbe == probeQ # <<>>
-Cands == IF IsProbe THEN {Head(probeQ)} ELSE IF active # {} THEN active ELSE Eps
+Cands == IF IsProbe THEN {Head(probeQ)} ELSE IF active # {} THEN active ELSE reg
 
+Orphan(e) == IsProbe /\ e \in staleQ           \* the probe candidate at the head of the queue is an adapter out of the cache
 Select(c, e, k) ==
   /\ infl[c] = NoCall
   /\ e \in Cands
   /\ up[e]
   /\ k \in Kinds
-  /\ infl' = [infl EXCEPT ![c] = [ep |-> e, probe |-> IsProbe]]
+  /\ infl' = [infl EXCEPT ![c] = [ep |-> e, probe |-> IsProbe, orph |-> Orphan(e)]]
   /\ probeQ' = IF IsProbe THEN Tail(probeQ) ELSE probeQ
   /\ listed' = IF IsProbe THEN listed \ {e} ELSE listed
-  /\ created' = created \cup {e}
-  /\ h' = [h EXCEPT ![e].send = @ + 1]                      \* sendAdd in AdapterProxy.Send
-  /\ UNCHANGED <<active, g, up>>
+  /\ staleQ' = IF IsProbe THEN staleQ \ {e} ELSE staleQ
+  /\ created' = IF Orphan(e) THEN created ELSE created \cup {e}
+  /\ h' = IF Orphan(e) THEN h ELSE [h EXCEPT ![e].send = @ + 1]                      \* sendAdd in AdapterProxy.Send
+  /\ UNCHANGED <<active, g, up, reg>>
 
 (* A failed call on a health record (failAdd) and on the ghosts.                                   *)
 FailRec(r) == [r EXCEPT !.lastFail = Min(FailN, @ + 1), !.fail = @ + 1]
@@ -117,10 +135,11 @@ Refused(c, e, k) ==
   /\ k \in Kinds
   /\ probeQ' = IF IsProbe THEN Tail(probeQ) ELSE probeQ
   /\ listed' = IF IsProbe THEN listed \ {e} ELSE listed
-  /\ created' = created \cup {e}
-  /\ h' = [h EXCEPT ![e] = FailRec([h[e] EXCEPT !.send = @ + 1])]
-  /\ g' = [g EXCEPT ![e] = FailGhost(g[e])]
-  /\ UNCHANGED <<active, infl, up>>
+  /\ staleQ' = IF IsProbe THEN staleQ \ {e} ELSE staleQ
+  /\ created' = IF Orphan(e) THEN created ELSE created \cup {e}
+  /\ h' = IF Orphan(e) THEN h ELSE [h EXCEPT ![e] = FailRec([h[e] EXCEPT !.send = @ + 1])]
+  /\ g' = IF Orphan(e) THEN g ELSE [g EXCEPT ![e] = FailGhost(g[e])]
+  /\ UNCHANGED <<active, infl, up, reg>>
 
 (* doInvoke after the send: a reply is successAdd (and, for a probe, reset + addAliveEp); a        *)
 (* timeout / cancelled context / send error is failAdd.                                            *)
@@ -132,14 +151,14 @@ CallDone(c, ok) ==
                      ELSE FailRec(h[e])
          r2 == IF re THEN [r1 EXCEPT !.send = 0, !.fail = 0, !.lastFail = 0, !.aBlock = 0, !.aCheck = 0, !.aKeep = 0, !.status = TRUE]
                      ELSE r1
-     IN /\ h' = [h EXCEPT ![e] = r2]
-        /\ active' = IF re THEN active \cup {e} ELSE active
-        /\ g' = [g EXCEPT ![e] = [@ EXCEPT
+     IN /\ h' = IF infl[c].orph THEN h ELSE [h EXCEPT ![e] = r2]           \* an orphan's counters are nobody's health record
+        /\ active' = IF re THEN active \cup {e} ELSE active                \* addAliveEp: whatever the registry says about e by now
+        /\ g' = IF infl[c].orph THEN g ELSE [g EXCEPT ![e] = [@ EXCEPT
                    !.since  = IF re THEN 0 ELSE IF ok THEN @ ELSE Min(OverN, @ + 1),
                    !.run    = IF ok THEN 0 ELSE Min(FailN, @ + 1),
                    !.runAge = IF ok \/ g[e].run = 0 THEN 0 ELSE @]]
   /\ infl' = [infl EXCEPT ![c] = NoCall]
-  /\ UNCHANGED <<created, probeQ, listed, up>>
+  /\ UNCHANGED <<created, probeQ, listed, up, reg, staleQ>>
 
 ----
 (* AdapterProxy.checkActive on a record; rc is what ReConnect would return.                        *)
@@ -171,7 +190,7 @@ Ping(r, u) ==
 Mgr == [h |-> h, active |-> active, probeQ |-> probeQ, listed |-> listed, g |-> g]
 
 StepEp(m, e, rc) ==
-  IF e \notin created THEN m
+  IF e \notin created \/ e \notin reg THEN m        \* checkStatus visits the adapters of the registry's active list only
   ELSE LET c     == CheckOne(Ping(m.h[e], up[e]), rc)
            admit == c.need /\ e \notin m.listed
            g1    == IF PingDue(m.h[e]) /\ ~up[e] THEN [m.g EXCEPT ![e] = FailGhost(@)] ELSE m.g   \* a ping that cannot be sent is a failed call
@@ -182,10 +201,10 @@ StepEp(m, e, rc) ==
            g      |-> IF admit THEN [g1 EXCEPT ![e].admitAge = 0] ELSE g1]
 
 SetMgr(m) == /\ h' = m.h /\ active' = m.active /\ probeQ' = m.probeQ /\ listed' = m.listed /\ g' = m.g
-             /\ UNCHANGED <<created, infl, up>>
+             /\ UNCHANGED <<created, infl, up, reg, staleQ>>
 
 Idle == \A c \in Calls : infl[c] = NoCall
-CheckEp(e, rc) == e \in created /\ (Overlap \/ Idle) /\ SetMgr(StepEp(Mgr, e, rc))
+CheckEp(e, rc) == e \in created /\ e \in reg /\ (Overlap \/ Idle) /\ SetMgr(StepEp(Mgr, e, rc))
 
 RECURSIVE Pass(_, _, _)
 Pass(m, e, rc) == IF e > N THEN m ELSE Pass(StepEp(m, e, rc[e]), e + 1, rc)
@@ -200,7 +219,7 @@ Advance(d) ==
                                        !.aKeep  = IF KeepAlive THEN Sat(@ + d, KeepInterval) ELSE 0]]
   /\ g' = [e \in Eps |-> [g[e] EXCEPT !.runAge   = IF g[e].run = 0 THEN 0 ELSE Sat(@ + d, FailInterval),
                                        !.admitAge = Sat(@ + d, TryInterval)]]
-  /\ UNCHANGED <<created, active, probeQ, listed, infl, up>>
+  /\ UNCHANGED <<created, active, probeQ, listed, infl, up, reg, staleQ>>
 
 (* The environment: the server of endpoint e stops listening (its connections are closed, the client notices) or  *)
 (* listens again.  Between calls only: a call in flight on a server that goes away simply never gets its reply.   *)
@@ -208,13 +227,57 @@ SetUp(e, b) ==
   /\ Faults /\ Idle
   /\ up[e] # b
   /\ up' = [up EXCEPT ![e] = b]
-  /\ UNCHANGED <<h, created, active, probeQ, listed, infl, g>>
+  /\ UNCHANGED <<h, created, active, probeQ, listed, infl, g, reg, staleQ>>
+
+(* The refresher (globalManager.updateEndpoints -> doFresh -> refreshEndpoints -> updateActiveEp) asks the registry   *)
+(* again and gets the answer x.  As coded:                                                                          *)
+(*   - an answer whose active list is the installed one (in any order: it is sorted by host first; the same         *)
+(*     endpoints with another weight or grid are NOT the installed list: x.v) or is empty changes nothing at all    *)
+(*     (not even the adapter cache is cleaned);                                                                     *)
+(*   - otherwise the active list is installed; adapters of endpoints that are in neither list are closed and        *)
+(*     forgotten (their health record is gone: should the registry name such an endpoint again it starts afresh,    *)
+(*     in rotation -- the registry, not a probe, brought it back; C15 is silent about that); adapters of endpoints  *)
+(*     on the INACTIVE list are kept with their health record, out of rotation and out of the status check;         *)
+(*   - rotation (activeEp and three new selectors) is rebuilt: every endpoint of the new active list EXCEPT those   *)
+(*     whose adapter is blocked.  The probe queue, its guard set and every health record and timestamp of an        *)
+(*     endpoint that stays listed are left alone: a blocked endpoint stays blocked and keeps its probe schedule.    *)
+(* An endpoint that leaves the active list while an admission for its probe is queued: C15 does not speak about        *)
+(* endpoints the registry has withdrawn, so with Stale = FALSE such answers are left out.  With Stale = TRUE they are    *)
+(* followed as coded: nothing looks at the probe queue, the admission stays; if the adapter is thrown out of the cache   *)
+(* the queue keeps the closed object (staleQ).  Never modelled: an adapter thrown out while a call is in flight on it.   *)
+Leaving(x) == (reg \cup created) \ x.a
+Thrown(x) == created \ (x.a \cup x.i)
+RefreshOK(x) ==
+  /\ x \in Answers
+  /\ Overlap \/ Idle
+  /\ \A e \in Leaving(x) : Stale \/ (e \notin listed /\ \A c \in Calls : infl[c].ep # e)
+  /\ \A e \in Thrown(x) : \A c \in Calls : infl[c].ep = e => infl[c].orph
+Refresh(x) ==
+  /\ RefreshOK(x)
+  /\ IF (x.a = reg /\ ~x.v) \/ x.a = {}
+     THEN UNCHANGED vars
+     ELSE LET kept == created \cap (x.a \cup x.i)
+              h1   == [e \in Eps |-> IF e \in created \ kept THEN H0 ELSE h[e]]
+          IN /\ reg' = x.a
+             /\ created' = kept
+             /\ h' = h1
+             /\ g' = [e \in Eps |-> IF e \in created \ kept THEN G0 ELSE g[e]]
+             /\ active' = {e \in x.a : h1[e].status}
+             /\ staleQ' = staleQ \cup (listed \cap Thrown(x))
+             /\ UNCHANGED <<probeQ, listed, infl, up>>
+
+\* every answer a registry can give over the endpoints 1..N (for the configurations: Answers <- AllAnswers)
+AllAnswers == {x \in [a : SUBSET Eps, i : SUBSET Eps, v : BOOLEAN] : x.a \cap x.i = {}}
+ActiveAnswers == {[a |-> A, i |-> {}, v |-> V] : A \in SUBSET Eps, V \in BOOLEAN}          \* ... that has no inactive list
+NoAnswers == {}
+AllEps == Eps
 
 Next == \/ \E c \in Calls, e \in Eps, k \in Kinds : Select(c, e, k)
         \/ \E c \in Calls, e \in Eps, k \in Kinds : Refused(c, e, k)
         \/ \E c \in Calls, ok \in BOOLEAN : CallDone(c, ok)
         \/ \E e \in Eps, b \in BOOLEAN : SetUp(e, b)
         \/ \E e \in Eps, rc \in Reconn : CheckEp(e, rc)
+        \/ \E x \in Answers : Refresh(x)
         \/ \E d \in Steps : Advance(d)
 Spec == Init /\ [][Next]_vars
 
@@ -228,9 +291,17 @@ TypeOK ==
                     aSucc : 0..FailInterval, aBlock : 0..TryInterval, aCheck : 0..CheckTime, aKeep : 0..KeepInterval]]
   /\ created \subseteq Eps /\ active \subseteq Eps /\ listed \subseteq Eps
   /\ probeQ \in Seq(Eps)
-  /\ \A c \in Calls : infl[c] = NoCall \/ (infl[c].ep \in Eps /\ infl[c].probe \in BOOLEAN)
+  /\ \A c \in Calls : infl[c] = NoCall \/ (infl[c].ep \in Eps /\ infl[c].probe \in BOOLEAN /\ infl[c].orph \in BOOLEAN)
   /\ up \in [Eps -> BOOLEAN]
-RotationIsHealthy == \A e \in Eps : (e \in active) <=> h[e].status      \* blocked <=> out of rotation
+  /\ reg \subseteq Eps /\ reg # {} /\ staleQ \subseteq listed
+  /\ Stale \/ (active \subseteq reg /\ listed \subseteq reg /\ staleQ = {} /\ \A c \in Calls : infl[c] = NoCall \/ (infl[c].ep \in reg /\ ~infl[c].orph))
+  /\ \A e \in Eps \ created : h[e] = H0 /\ g[e] = G0                    \* no adapter, no record
+\* every endpoint in rotation is one the registry names -- and therefore one the status check visits.  As coded (Stale = TRUE) this
+\* does NOT hold: a probe admitted before the registry withdrew the endpoint is still carried out, and its success puts the endpoint
+\* into rotation (addAliveEp) where it stays, unsupervised, until the registry's list changes again.
+RotationIsRegistered == active \subseteq reg
+RotationIsHealthy == active \cap reg = {e \in reg : h[e].status \/ (Stale /\ e \in active)}   \* of the registry's endpoints: blocked <=> out of rotation
+                                                                     \* (as coded with Stale: a late orphan probe may put a blocked one back)
 ProbeQueueSingle == /\ Range(probeQ) = listed                            \* an admitted endpoint is queued once
                     /\ Len(probeQ) = Cardinality(listed)
 \* Holds when checks do not overlap calls.  With Overlap it does NOT hold (TLC: 12 steps): an admission left
@@ -238,13 +309,15 @@ ProbeQueueSingle == /\ Range(probeQ) = listed                            \* an a
 \* again, the probe succeeds, and the healthy endpoint is still queued for a "probe" (whose success resets its
 \* counters once more and adds it to activeEp a second time).  C15 does not speak about this; recorded as an
 \* observation, not as a violation.
-ProbesTargetBlocked == /\ \A e \in listed : ~h[e].status
-                       /\ \A c \in Calls : infl[c].probe => ~h[infl[c].ep].status
+ProbesTargetBlocked == /\ \A e \in listed \ staleQ : ~h[e].status
+                       /\ \A c \in Calls : (infl[c].probe /\ ~infl[c].orph) => ~h[infl[c].ep].status
 FailuresCounted == \A e \in Eps : h[e].fail <= h[e].send                 \* the ratio is a ratio (one call slot)
 
 (* C15, clause by clause *)
-TakenOut(e) == e \in active /\ e \notin active'
-Returned(e) == e \notin active /\ e \in active'
+\* taken out of rotation although the registry still names it / a BLOCKED endpoint is back in rotation (an endpoint the
+\* registry names for the first time, or again after its record was dropped, JOINS: it was not blocked)
+TakenOut(e) == e \in active /\ e \notin active' /\ e \in reg'
+Returned(e) == ~h[e].status /\ e \notin active /\ e \in active'
 
 \* "an endpoint with no failed calls is never taken out of rotation"
 \* (g' and not g: with keep-alive configured the status check that takes the endpoint out may itself add a failure -- its
@@ -269,7 +342,7 @@ ProbeIsOneCall ==   \* a probe call exists only by consuming one admission
 \* "returns to rotation as soon as a probe succeeds and stays blocked otherwise"
 ProbeDecides ==
   [][\A c \in Calls : \A ok \in BOOLEAN :
-       (CallDone(c, ok) /\ infl[c].probe /\ ~h[infl[c].ep].status) =>
+       (CallDone(c, ok) /\ infl[c].probe /\ ~infl[c].orph /\ ~h[infl[c].ep].status) =>
           IF ok THEN infl[c].ep \in active' /\ h'[infl[c].ep].status
                 ELSE infl[c].ep \notin active' /\ ~h'[infl[c].ep].status]_vars
 \* ... and a probe that cannot even be sent is a probe that did not succeed
@@ -288,11 +361,25 @@ OnlyProbeReturns ==
 StepBreaks(isCheck) ==
      {"endpoint-left-rotation-with-fewer-than-two-failures" : e \in {x \in Eps : TakenOut(x) /\ g'[x].since < OverN}}
   \cup {"all-failing-endpoint-still-in-rotation-after-status-check" :
-           e \in {x \in Eps : isCheck /\ x \in created /\ AllFailing(x) /\ x \in active /\ active \ {x} # {} /\ x \in active'}}
+           e \in {x \in Eps : isCheck /\ x \in created /\ x \in reg /\ AllFailing(x) /\ x \in active /\ active \ {x} # {} /\ x \in active'}}
   \cup {"probe-admitted-less-than-30s-after-the-previous" : e \in {x \in Eps : x \notin listed /\ x \in listed' /\ g[x].admitAge < TryInterval}}
   \cup {"blocked-endpoint-returned-without-successful-probe" :
            e \in {x \in Eps : Returned(x) /\ ~\E c \in Calls : infl[c].ep = x /\ infl[c].probe /\ infl'[c] = NoCall}}
+  \* only with Stale (as coded; C15 is silent about endpoints the registry has withdrawn -- reported as observations):
+  \cup {"withdrawn-endpoint-put-into-rotation-by-a-probe-admitted-earlier" : e \in {x \in Eps : x \notin active /\ x \in active' /\ x \notin reg'}}
+  \cup {"all-failing-withdrawn-endpoint-stays-in-rotation-unchecked" :
+           e \in {x \in Eps : isCheck /\ x \in created /\ x \notin reg /\ AllFailing(x) /\ x \in active /\ active \ {x} # {} /\ x \in active'}}
+
+\* "stays blocked otherwise", across registry refreshes: whatever the registry answers, an endpoint that stays on the active list
+\* keeps its place (in or out of rotation), its health record and its probe schedule; healthy ones stay, new ones join; an
+\* endpoint that comes back from the inactive list is in rotation iff it is not blocked
+RefreshRespectsHealth ==
+  [][\A x \in Answers : Refresh(x) =>
+        /\ \A e \in reg \cap reg' : (e \in active' <=> e \in active) /\ h'[e] = h[e] /\ g'[e] = g[e]
+        /\ probeQ' = probeQ /\ listed' = listed
+        /\ \A e \in reg' \ reg : e \in active' <=> h[e].status
+        /\ (x.a = {} \/ (x.a = reg /\ ~x.v)) => UNCHANGED vars]_vars
 
 \* "when every endpoint is blocked calls are still attempted on some endpoint instead of failing outright"
-CallsGoSomewhere == Cands # {} /\ (active = {} /\ ~IsProbe => Cands = Eps)
+CallsGoSomewhere == Cands # {} /\ (active = {} /\ ~IsProbe => Cands = reg)
 ====
